@@ -184,12 +184,25 @@ func (mo *monitors) checkRoundStore(h uint64, r uint32) {
 		if len(kc.c.BlockSignatures) == 0 {
 			continue
 		}
+		judgeSet := set
 		if !bytes.Equal(kc.c.PubKeyHash, set.vs.PubKeyHash) {
-			mo.cs.count("unjudged.round-store-collection-labelled-with-other-pubkeyhash")
+			// The collection is filed under another validator set's hash. For a round of a
+			// height the node had not reached when it stored the votes, the set of that height
+			// was not determined yet and the node verifies against the set the message names
+			// (if it knows it). Such an entry claims to be votes of the set it names: it is
+			// judged against that set; it must never show up in a view (checkViewSigs does
+			// judge views against the prescribed set).
+			other := mo.w.setByPubKeyHash(kc.c.PubKeyHash)
+			if other == nil {
+				mo.cs.count("unjudged.round-store-collection-labelled-with-unknown-pubkeyhash")
+				continue
+			}
+			mo.cs.count("round-store-collection-judged-against-the-set-it-names")
+			judgeSet = other
 		}
 		for hash, sigs := range kc.c.BlockSignatures {
 			for _, ss := range sigs {
-				if _, ok := mo.verifyCached(set, kc.kind, h, r, hash, ss); !ok {
+				if _, ok := mo.verifyCached(judgeSet, kc.kind, h, r, hash, ss); !ok {
 					mo.cs.violate("C05", "C05:invalid-signature-in-round-store:"+kc.kind,
 						fmt.Sprintf("round store %d/%d holds a %s signature for %s (key id %x) that does not verify", h, r, kc.kind, shortHash(hash), ss.KeyID), nil)
 				}
